@@ -41,7 +41,9 @@ def gen(r, tier, i):
     return {'class': 'dynamic', 'cell_ts': r.choice([0.5, 1.0, 1.5, 0.75]), 'dir_as': r.choice(['process', 'step']),
             'script': structw.gen_script(r), 'base': r.choice([[], [], ['env']]),
             'deriver': r.choice([None, 'steps', 'processes']), 'dir_subtopo': r.random() < 0.25, 'viewer_ts': r.choice([0.25, 0.5, 1.0, 1.5, 2.0, 3.0]), 'poke': r.random() < 0.5, 'nested_cells': r.random() < 0.4,
-            'run': r.choice([6.0, 8.0, 10.0])}
+            'run': r.choice([6.0, 8.0, 10.0]),
+            # the caller's own loop: unforced run_for() calls (processes wait across their ends), then one update()
+            'chunks': [r.choice([0.75, 1.0, 1.25, 2.5]) for _ in range(r.choice([0, 0, 2, 3, 4]))]}
 
 
 def expected_view(schema, tp, ppath, tree):
@@ -185,7 +187,9 @@ def run_dynamic(spec, V):
     stats = {'struct_ops': 0, 'view_checks': 0}
     try:
         e, comp = structw.build(spec)
-        ok, exc = drive(e, m, [[spec['run'], 'update']], lambda iv: 4000)
+        chunks = [c for c in spec.get('chunks', [])]
+        calls = [[c, False] for c in chunks] + [[max(1.0, spec['run'] - sum(chunks)), 'update']]
+        ok, exc = drive(e, m, calls, lambda iv: 4000)
         V.check('no_exception', ok, lambda: ('engine raised during a structural history', repr(exc)[:300],
                                              [ev[1] for ev in m.events if ev[0] == 'struct'][-3:]),
                 mechanism=None)
